@@ -6,7 +6,7 @@ PLAN = {
         "text": "PayloadWriter's representation invariant wf() (offsets monotone and in bounds, every committed frame within max_payload_len and, in length-prefixed mode, preceded by its exact LE length, placeholder present for the frame being built) is proved to be established by new() and preserved by every mutator for arbitrary buffer contents and any history, unbounded; write_* contracts account for payloads written / points dropped.",
         "note": "Assumed: vstd's Vec/slice specs; shim specs for u32::to_le_bytes (R1) and range copy_from_slice (R7); itoa/ryu output as uninterpreted byte strings with assumed length bounds; Key/Label accessors as uninterpreted views. Socket I/O is out of scope.",
     },
-    "min_obligations": {"quick": 34, "thorough": 34},
+    "min_obligations": {"quick": 36, "thorough": 36},
     "assumptions": [
         "usize is 64 bit; Verus overflow checks on machine integers",
         "vstd specifications of Vec::{push,len,truncate,clear,extend_from_slice}, slices and Option",
@@ -15,7 +15,7 @@ PLAN = {
         "R4: pub(super)/pub dropped (single-file crate)",
     ],
     "verus": [
-        {"template": "writer.verus.rs", "tier": "quick", "rlimit": 80, "min_functions": 34},
+        {"template": "writer.verus.rs", "tier": "quick", "rlimit": 80, "min_functions": 36},
     ],
     "witnesses": [
         {"match": r"(Payloads|payloads|verif_flush_cycle|verif_drain)", "src": "witness_flush_cycle.rs", "crate": "metrics-exporter-dogstatsd",
